@@ -209,6 +209,8 @@ class Report:
             p = subprocess.run([REPLAY_PY, tmp], capture_output=True, text=True,
                                timeout=600, cwd='/')
             code, out = p.returncode, (p.stdout + p.stderr)[-2000:]
+            if code == 1 and 'REPRODUCED:' not in p.stdout:
+                code = 2   # the script itself crashed: not a reproduction
         except subprocess.TimeoutExpired:
             code, out = -1, 'replay timed out'
         if code == 1:
@@ -437,7 +439,7 @@ def run_property(prop, tier, seed, families, meta, jobs=None):
     seen = set()
     for r in results:
         for c in r['cex']:
-            key = (prop, c['cls'])
+            key = (prop, _slug(c['cls']))
             if key in seen:
                 continue
             seen.add(key)
